@@ -153,7 +153,7 @@ ATTRS = ["array", "T", "inv", "sqrt", "eigval", "eigvec", "diagonal", "log_abs_d
 
 def run_shard(idx, mode, maxops, starts, partners, name):
     d = tlc.fresh_dir(f"{name}_{idx}")
-    tlc.stage_specs(d, ["Matrices.tla"])
+    tlc.stage_specs(d, ["Matrices.tla", "MatSemantics.tla"])
     (d / "MatLeaves.tla").write_text(leaves_module())
     src = (d / "Matrices.tla").read_text().replace(
         "=============================================================================",
@@ -215,6 +215,18 @@ def apply_ops(obj, ops):
     return obj
 
 
+def provides(obj, name):
+    """hasattr that only treats AttributeError as absence: any other exception raised by a property means the
+    attribute exists and is broken (and is then reported by the comparison that follows)."""
+    try:
+        getattr(obj, name)
+    except AttributeError:
+        return False
+    except Exception:  # noqa: BLE001
+        return True
+    return True
+
+
 def observe(obj, V, facts, Vinv):
     """Compare every observable of the real object with the exact value V. Returns list of (kind, detail)."""
     import mici.matrices as M
@@ -248,7 +260,7 @@ def observe(obj, V, facts, Vinv):
     chk("diagonal", lambda: obj.diagonal, np.diag(V) if n == m else np.diagonal(V))
     if n == m:
         det = np.linalg.det(V)
-        if hasattr(type(obj), "log_abs_det") and abs(det) > 1e-12:
+        if provides(obj, "log_abs_det") and abs(det) > 1e-12:
             chk("log_abs_det", lambda: np.exp(obj.log_abs_det), abs(det))
     if facts["inv"]:
         if not isinstance(obj, M.InvertibleMatrix):
@@ -494,9 +506,9 @@ def check_value_semantics():
         for opname, fn in (("matvec", lambda: obj @ v), ("matmat", lambda: obj @ Bm), ("rmatvec", lambda: w @ obj),
                            ("scale", lambda: 3.0 * obj), ("neg", lambda: -obj), ("div", lambda: obj / 2.0),
                            ("T", lambda: obj.T), ("T.matvec", lambda: obj.T @ w), ("array", lambda: obj.array),
-                           ("inv", lambda: obj.inv @ w if hasattr(type(obj), "inv") else None),
-                           ("sqrt", lambda: obj.sqrt @ v if hasattr(type(obj), "sqrt") else None),
-                           ("2*inv", lambda: (2.0 * obj).inv.array if hasattr(type(obj), "inv") else None),
+                           ("inv", lambda: obj.inv @ w if provides(obj, "inv") else None),
+                           ("sqrt", lambda: obj.sqrt @ v if provides(obj, "sqrt") else None),
+                           ("2*inv", lambda: (2.0 * obj).inv.array if provides(obj, "inv") else None),
                            ("prod", lambda: (obj @ obj.T).array)):
             try:
                 fn()
